@@ -136,7 +136,7 @@ package variants
 //@   loop 1:
 //@     invariant hdrs >= 0 && first == (hdrs == 0)
 //@     invariant [strict] !gBad
-//@     invariant implies(refFound, id == referenceID)
+//@     invariant implies(refFound, id == referenceID) && implies(first, !refFound)
 //@   loop 2:
 //@     invariant hdrs >= 1 && len(encodedLine) == len(line) && forall(j, 0, range_i, coding[line[j]] != 0) && implies(refFound, id == referenceID)
 //@   after call:Bytes#1: do if len(line) > 0 && line[0] == '>' { hdrs++ } else { if hdrs > 0 && len(line) > 0 && exists(j, 0, len(line), coding[line[j]] == 0) { gBad = true } }
